@@ -446,6 +446,150 @@ def _desugar_try_fold(fns_by_path, f, raw):
     return raw, used
 
 
+FOLD_LIKE = re.compile(r"iter::(traits::iterator::)?Iterator::(fold|for_each)$")
+
+
+def _desugar_fold_like(fns_by_path, f, raw):
+    """`it.for_each(|x| body)` is `for x in it { body }`; `it.fold(init, |acc, x| e)` is `let mut acc = init; for x in it { acc = e }; acc`
+    (closure or function of this crate).  Replaced by that loop, closure body spliced in, for the same reason as try_fold."""
+    cur = raw if raw is not None else f.raw
+    todo = []
+    for bi, b in enumerate(cur["blocks"]):
+        t = b["term"]
+        if b.get("cleanup") or not t or t["k"] != "call" or t.get("target") is None:
+            continue
+        m = FOLD_LIKE.search(t.get("callee") or "")
+        if not m:
+            continue
+        kind = m.group(2)
+        if len(t.get("args") or []) != (3 if kind == "fold" else 2):
+            continue
+        fn_op = t["args"][-1]
+        step = None
+        if fn_op["k"] == "const" and fn_op.get("fn"):
+            step = fns_by_path.get(fn_op["fn"])
+        elif fn_op["k"] != "const" and not fn_op["place"]["p"]:
+            cp = _closure_of(cur, fn_op["place"]["l"])
+            step = fns_by_path.get(cp) if cp else None
+        if step is None or len(step.blocks) > 40:
+            continue
+        want_args = (2 if kind == "fold" else 1) + (1 if step.kind == "Closure" else 0)
+        if step.arg_count != want_args:
+            continue
+        # adaptors between the source iterator and the consumer are fused into the loop:  src.filter(p).fold(..)  ==
+        # for x in src { if p(&x) { .. } }   (only closures of this crate; anything else leaves the call alone)
+        stages, src_op, drop_blocks = [], t["args"][0], []
+        okc = True
+        for _ in range(4):
+            if src_op["k"] == "const" or src_op["place"]["p"]:
+                break
+            l_ = src_op["place"]["l"]
+            prod = [(bj, bb_["term"]) for bj, bb_ in enumerate(cur["blocks"]) if not bb_.get("cleanup") and bb_["term"] and bb_["term"]["k"] == "call"
+                    and not bb_["term"]["dest"]["p"] and bb_["term"]["dest"]["l"] == l_]
+            if len(prod) != 1:
+                break
+            pj, pt = prod[0]
+            am = re.search(r"iter::(traits::iterator::)?Iterator::(filter|map)$", pt.get("callee") or "")
+            if not am or len(pt["args"]) != 2 or pt.get("target") is None:
+                break
+            cop = pt["args"][1]
+            cpath = _closure_of(cur, cop["place"]["l"]) if cop["k"] != "const" and not cop["place"]["p"] else None
+            cfn = fns_by_path.get(cpath) if cpath else None
+            if cfn is None or cfn.arg_count != 2 or len(cfn.blocks) > 40:
+                okc = False
+                break
+            stages.insert(0, (am.group(2), cop, cfn))
+            drop_blocks.append(pj)
+            src_op = pt["args"][0]
+        if not okc:
+            continue
+        todo.append((bi, step, kind, stages, src_op, drop_blocks))
+    if not todo:
+        return raw, set()
+    if raw is None:
+        raw = copy.deepcopy(f.raw)
+    used = set()
+    for bi, step, kind, stages, src_op, drop_blocks in todo:
+        blk = raw["blocks"][bi]
+        t = blk["term"]
+        span = t["span"]
+        dest, target = t["dest"], t["target"]
+        is_closure = step.kind == "Closure"
+        for pj in drop_blocks:
+            pt = raw["blocks"][pj]["term"]
+            raw["blocks"][pj]["term"] = {"k": "goto", "target": pt["target"], "span": pt["span"], "expn": pt.get("expn")}
+        t = dict(t, args=[copy.deepcopy(src_op)] + list(t["args"][1:]))
+
+        def new_local(ty, name=None):
+            raw["locals"].append({"ty": ty, "name": name})
+            return len(raw["locals"]) - 1
+
+        def new_block():
+            raw["blocks"].append({"stmts": [], "term": None, "cleanup": False})
+            return len(raw["blocks"]) - 1
+
+        def asg(b_, place, rv):
+            raw["blocks"][b_]["stmts"].append({"k": "assign", "place": place, "rv": rv, "span": span, "expn": None})
+        L = lambda l, ty="?": {"l": l, "p": [], "ty": ty}
+        mv = lambda l, ty="?": {"k": "move", "place": L(l, ty)}
+        a0_ = t["args"][0]
+        it_ty = (raw["locals"][a0_["place"]["l"]].get("ty") if a0_["k"] != "const" and not a0_["place"]["p"] else a0_.get("ty")) or "?"
+        it = new_local(it_ty)
+        nx = new_local("std::option::Option<?>")
+        d1 = new_local("isize")
+        item = new_local("?")
+        fr = new_local(step.locals[0]["ty"])
+        acc = new_local("?", "acc") if kind == "fold" else None
+        head, after_next, body, after_step, done = [new_block() for _ in range(5)]
+        if kind == "fold":
+            asg(bi, L(acc), {"k": "use", "op": t["args"][1]})
+        asg(bi, L(it), {"k": "use", "op": t["args"][0]})
+        blk["term"] = {"k": "goto", "target": head, "span": span, "expn": t.get("expn")}
+        raw["blocks"][head]["term"] = {"k": "call", "callee": "std::iter::Iterator::next", "resolved": None, "resolved_local": False, "gargs": [], "trait": None,
+                                       "self_ty": re.sub(r"^&(mut )?", "", it_ty),
+                                       "args": [{"k": "copy", "place": L(it)}], "dest": L(nx), "target": after_next, "unwind": None, "span": span, "fn_span": span, "expn": None}
+        asg(after_next, L(d1, "isize"), {"k": "discr", "place": L(nx), "adt": "std::option::Option", "vars": [[0, "None"], [1, "Some"]]})
+        raw["blocks"][after_next]["term"] = {"k": "switch", "discr": mv(d1, "isize"), "dty": "isize", "targets": [[0, done]], "otherwise": body, "span": span, "expn": None}
+        asg(body, L(item), {"k": "use", "op": {"k": "move", "place": {"l": nx, "p": [{"k": "downcast", "v": "Some", "i": 1}, {"k": "field", "i": 0, "n": "0", "adt": "std::option::Option", "ty": "?"}], "ty": "?"}}})
+        # fused adaptor stages run on the item first
+        for sk_, cop_, cfn_ in stages:
+            if sk_ == "map":
+                r_ = new_local(cfn_.locals[0]["ty"])
+                nb_ = new_block()
+                raw["blocks"][body]["term"] = {"k": "call", "callee": cfn_.path, "resolved": cfn_.path, "resolved_local": True, "gargs": [], "trait": None, "self_ty": None,
+                                               "args": [copy.deepcopy(cop_), mv(item)], "dest": L(r_), "target": nb_, "unwind": None, "span": span, "fn_span": span, "expn": None}
+                _inline_call(raw, body, cfn_.raw)
+                used.add(cfn_.path)
+                body, item = nb_, r_
+            else:
+                rr_ = new_local("&?")
+                asg(body, L(rr_), {"k": "ref", "mut": False, "place": L(item)})
+                r_ = new_local("bool")
+                nb_ = new_block()
+                raw["blocks"][body]["term"] = {"k": "call", "callee": cfn_.path, "resolved": cfn_.path, "resolved_local": True, "gargs": [], "trait": None, "self_ty": None,
+                                               "args": [copy.deepcopy(cop_), mv(rr_)], "dest": L(r_), "target": nb_, "unwind": None, "span": span, "fn_span": span, "expn": None}
+                _inline_call(raw, body, cfn_.raw)
+                used.add(cfn_.path)
+                keep_ = new_block()
+                raw["blocks"][nb_]["term"] = {"k": "switch", "discr": mv(r_, "bool"), "dty": "bool", "targets": [[0, head]], "otherwise": keep_, "span": span, "expn": None}
+                body = keep_
+        args = ([t["args"][-1]] if is_closure else []) + ([{"k": "copy", "place": L(acc)}] if kind == "fold" else []) + [mv(item)]
+        raw["blocks"][body]["term"] = {"k": "call", "callee": step.path, "resolved": step.path, "resolved_local": True, "gargs": [], "trait": None, "self_ty": None,
+                                       "args": args, "dest": L(fr), "target": after_step, "unwind": None, "span": span, "fn_span": span, "expn": None}
+        if kind == "fold":
+            asg(after_step, L(acc), {"k": "use", "op": mv(fr)})
+        raw["blocks"][after_step]["term"] = {"k": "goto", "target": head, "span": span, "expn": None}
+        if kind == "fold":
+            asg(done, dest, {"k": "use", "op": {"k": "copy", "place": L(acc)}})
+        else:
+            asg(done, dest, {"k": "agg", "ak": "tuple", "ops": []})
+        raw["blocks"][done]["term"] = {"k": "goto", "target": target, "span": span, "expn": None}
+        if is_closure:
+            _inline_call(raw, body, step.raw)
+            used.add(step.path)
+    return raw, used
+
+
 def desugar_combinators(fns_by_path, f):
     """-> new Fn with every closure-taking combinator call (closure written in this crate) replaced by its match; None if nothing changed"""
     from .unroll import unroll_array_iterators
@@ -464,7 +608,8 @@ def desugar_combinators(fns_by_path, f):
         if r0 is None and r1 is None:
             break
     raw, used = _desugar_try_fold(fns_by_path, f, None)
-    used |= used0
+    raw, used3 = _desugar_fold_like(fns_by_path, f, raw)
+    used |= used0 | used3
     if raw is None and pre is not None:
         raw = pre
     changed = raw is not None
